@@ -14,12 +14,22 @@
 
 /*@unit
 name: dlist_vec_insert
-define: U_INSERT
+define: U_INSERT, U_NOT_DUP1
 src: dlinked_list.c
 tier: B
 backend: cadical
 unwind: 10
-bound: vector length <= 4, all key values (ascending, duplicates allowed), element of any key
+bound: vector length <= 4, all key values (ascending, duplicates allowed), element of any key; except: one-element vector and element equal to it
+funcs: spif_dlinked_list_insert, spif_dlinked_list_item_comp
+*/
+/*@unit
+name: dlist_vec_insert_dup1
+define: U_INSERT, U_DUP1, VL_FIXN=1
+src: dlinked_list.c
+tier: B
+backend: cadical
+unwind: 10
+bound: one-element vector, inserted element equal to the stored one
 funcs: spif_dlinked_list_insert, spif_dlinked_list_item_comp
 */
 /*@unit
@@ -83,6 +93,12 @@ void harness(void)
     present = vl_ideal_count_eq(&m, k) > 0;
 
 #ifdef U_INSERT
+# ifdef U_NOT_DUP1
+    __CPROVER_assume(!(m.len == 1 && m.key[0] == k));
+# endif
+# ifdef U_DUP1
+    __CPROVER_assume(m.key[0] == k);
+# endif
     b = spif_dlinked_list_insert(self, x);
     __CPROVER_assert(b == TRUE, "dlist vec insert: returns TRUE");
     READ(self, r, "dlist vec insert");
